@@ -33,7 +33,7 @@ def run(ctx):
             tag = f'{fname}-{m}-{t}'.replace('(', '').replace(')', '').replace('^', 'e')
             full = q ** nsub <= (3000 if ctx.quick else 100000)
             sparse_size = 1 + nsub * (q - 1) + math.comb(nsub, 2) * (q - 1) ** 2
-            if full or sparse_size <= (3000 if ctx.quick else 60000):
+            if full or sparse_size <= (3000 if ctx.quick else 7000):
                 cfg = os.path.join(wd, f'mc_{tag}.cfg')
                 tlc.write_cfg(cfg, spec='PSpec', constants=consts(fname, m, t, {'Sample': 0 if full else 1}),
                               invariants=['PrssConsistent', 'PrssZeroConsistent'])
